@@ -388,6 +388,16 @@ func runC12(c *Ctx, r *Report) {
 	r.Doc("R-C12.5", "in the decode closure a return with a non-nil error carries a nil value (callers filter failed blocks by the value)")
 	r.Doc("R-C12.6", "a block that fails to load or decode costs nothing but itself: the worker still returns its slot, decrements the in-progress counter and wakes the dispatcher on that path")
 	importRules(c, r, "C11", []string{"R-C11.1", "R-C11.6"}, "R-C12.6")
+	r.Doc("R-C12.7", "on the decode path every error result is examined before the next step overwrites it: a failed step never hands its zero values on as if it had succeeded")
+	{
+		scope := decodeScope(c)
+		errDiscipline(c, r, "R-C12.7", func(fn *Fn) bool {
+			if _, ok := scope[fn.Root()]; ok {
+				return true
+			}
+			return rootNamed(fn, "FromMultihashWithIO", "fromMultihash", "fromJSON", "fetchEntry") || inPkgs(c.P, fn, "io/cbor", "io/jsonable", "io/pb", "enc")
+		}, "the decoder goes on with the zero values of the failed step — a nil pointer dereferenced further down, or an entry that silently lacks the field", deliberateDiscards)
+	}
 	nerr := 0
 	for _, fn := range fns {
 		if fn.Type.Results == nil || len(fn.Type.Results.List) == 0 {
